@@ -16,6 +16,8 @@ pub struct RunCfg {
 	pub verbose: bool,
 	pub scale: f64,
 	pub max_seconds: f64,
+	/// signatures of known findings: counted, one example kept, never stop the run early
+	pub known: Vec<String>,
 }
 
 #[derive(Clone, Debug)]
@@ -41,6 +43,7 @@ pub struct Report {
 	pub inconclusive: Vec<String>,
 	pub exhaustive: bool,
 	pub notes: Vec<String>,
+	pub known_hits: BTreeMap<String, (u64, VRec)>,
 }
 
 impl Report {
@@ -65,6 +68,10 @@ impl Report {
 		}
 		self.inconclusive.extend(o.inconclusive);
 		self.notes.extend(o.notes);
+		for (k, (n, ex)) in o.known_hits {
+			let e = self.known_hits.entry(k).or_insert((0, ex));
+			e.0 += n;
+		}
 	}
 	pub fn to_json(&self, cfg: &RunCfg, wall: f64) -> J {
 		J::obj(vec![
@@ -95,6 +102,25 @@ impl Report {
 								("case", J::s(&v.case)),
 								("index", J::u(v.index)),
 								("log", J::Arr(v.log.iter().map(J::s).collect())),
+							])
+						})
+						.collect(),
+				),
+			),
+			(
+				"known_hits",
+				J::Arr(
+					self.known_hits
+						.iter()
+						.map(|(k, (n, v))| {
+							J::obj(vec![
+								("signature", J::s(k)),
+								("count", J::u(*n)),
+								("prop", J::s(&v.prop)),
+								("rule", J::s(&v.rule)),
+								("detail", J::s(&v.detail)),
+								("case", J::s(&v.case)),
+								("index", J::u(v.index)),
 							])
 						})
 						.collect(),
@@ -147,6 +173,17 @@ pub fn par_run(
 					}
 					let before = local.violations.len();
 					f(i, &mut local);
+					// known findings: count, keep one example, do not stop the run
+					let mut k = before;
+					while k < local.violations.len() {
+						if cfg.known.iter().any(|s| *s == local.violations[k].signature) {
+							let v = local.violations.remove(k);
+							let e = local.known_hits.entry(v.signature.clone()).or_insert((0, v));
+							e.0 += 1;
+						} else {
+							k += 1;
+						}
+					}
 					nviol.fetch_add(local.violations.len() - before, Ordering::Relaxed);
 					done.fetch_add(1, Ordering::Relaxed);
 				}
